@@ -36,7 +36,9 @@ def gen_env(rng, name, lower, sites, provs):
         elif j == 5:
             e = ("sym", [("name", rng.choice(KEYS))])          # own key, inherited key, or dangling
         elif j == 6:
-            e = ("secret", rng.choice(["hunter2", "pw"]))
+            # plaintext or ciphertext: every environment has its own decrypter, an import is decrypted with ITS key
+            e = ("secret", rng.choice(["hunter2", "pw"])) if rng.chance(1, 2) else \
+                ("cipher", G.envelope_repr(rng.choice([b"ct-one", b"zz", b"!undecryptable"])))
         elif j == 7:
             pn = "p%s%d" % (name, len(sites))
             sites.append(pn)
@@ -52,8 +54,41 @@ def gen_env(rng, name, lower, sites, provs):
     return {"imports": imports, "values": vals}
 
 
+def alias_family():
+    """an import L aliases one of its own objects (k: ${obj}); an EARLIER sibling import defines k with an overlapping
+    nested object: merging k must not write through the alias into obj (and the other way round)"""
+    out = []
+    nested = ("obj", [("inner", ("obj", [("x", ("num", "1"))])), ("z", ("num", "2"))])
+    aliases = [("k", ("sym", [("name", "obj")]), lambda o: o),
+               ("k", ("sym", [("name", "obj"), ("name", "inner")]), lambda o: o[1][0][1]),
+               ("k", ("obj", [("w", ("sym", [("name", "obj")]))]), lambda o: ("obj", [("w", o)])),
+               ("k", ("arr", [("sym", [("name", "obj")])]), None)]
+    over = ("obj", [("inner", ("obj", [("y", ("num", "2"))])), ("x", ("num", "7")), ("y", ("num", "8"))])
+    for key, alias, wrap in aliases:
+        for bshape in range(3):
+            bval = over if bshape == 0 else ("obj", [("w", over)]) if bshape == 1 else ("obj", [("inner", ("str", "cut"))])
+            for order in (["base", "L"], ["L", "base"], ["base", "L", "base2"], ["base", "L", "L"]):
+                for own in (False, True):
+                    for objfirst in (True, False):
+                        lv = [("obj", nested), (key, alias)] if objfirst else [(key, alias), ("obj", nested)]
+                        envs = {"L": {"imports": [], "values": lv},
+                                "base": {"imports": [], "values": [(key, bval)]},
+                                "base2": {"imports": [], "values": [("obj", ("obj", [("inner", ("obj", [("q", ("num", "3"))]))]))]}}
+                        rv = [("k", ("obj", [("inner", ("obj", [("r", ("num", "4"))]))]))] if own else []
+                        seen = []
+                        for m in sorted(set(order)):
+                            rv.append(("seen_" + m, ("sym", [("name", "imports"), ("name", m)])))
+                            seen.append(("seen_" + m, m))
+                        envs["root"] = {"imports": [(m, True) for m in order], "values": rv}
+                        c = G.case_from_graph(envs, "root")
+                        c["provs"] = {}
+                        c["seen"] = seen
+                        out.append(c)
+    return out
+
+
 def gen(rng, tier):
-    cases = []
+    cases = alias_family()
     n = 2500 if tier == "thorough" else 300
     for i in range(n):
         r = rng.fork("g%d" % i)
